@@ -35,7 +35,9 @@ def program_strategy(draw, max_ops=12):
                    {"op": "group", "cls": "ContainerGroup", "parent": 1, "name": "g2"},
                    {"op": "object", "cls": "Points", "parent": 2, "name": "p", "geom": {"n": 3, "g": [1, 2, 3, 4]}},
                    {"op": "data", "obj": 0, "kind": "ref", "assoc": "VERTEX", "vals": [1, 2, 0], "name": "r", "short": 0, "pg": "pg1"},
-                   {"op": "data", "obj": 0, "kind": "float", "assoc": "VERTEX", "vals": [1, None, 3], "name": "f", "short": 0, "pg": "pg1"}],
+                   {"op": "data", "obj": 0, "kind": "float", "assoc": "VERTEX", "vals": [1, None, 3], "name": "f", "short": 0, "pg": "pg1"},
+                   {"op": "data", "obj": 0, "kind": "int", "assoc": "VERTEX", "vals": [4, 5, 6], "name": "i", "short": 0, "pg": "pg2"},
+                   {"op": "data", "obj": 0, "kind": "float", "assoc": "VERTEX", "vals": [7, 8, 9], "name": "g", "short": 0, "pg": "pg3"}],
     }))
     build["observe"] = "reopen"
     build["allow_known"] = False
@@ -90,6 +92,12 @@ def enumerate_faults(h5: h5py.File):
                             yield ("link", f"{epath}/{sub}", child, "other", ("entity", child))
                 elif sub == "PropertyGroups":
                     yield ("link", epath, sub, "optional", ("entity", uid))
+                    for pg_uid in item:
+                        # one property group of the block: it describes that group only
+                        yield ("link", f"{epath}/PropertyGroups", pg_uid, "other", ("pg", uid, pg_uid))
+                        for attr in item[pg_uid].attrs:
+                            klass = "mandatory" if attr in ("ID", "Group Name") else "optional"
+                            yield ("attr", f"{epath}/PropertyGroups/{pg_uid}", attr, klass, ("pg", uid, pg_uid))
                 elif sub == "Concatenated Data":
                     yield ("link", epath, sub, "other", ("entity", uid))
                 else:
@@ -220,6 +228,8 @@ class C19(Check):
                     which = "Data" if is_data else ("Groups" if is_group else "Objects")
                     if which == described[2]:
                         base.add(child)
+            elif described[0] == "pg":
+                base = set()
             elif described[0] == "root":
                 base = {"ROOT"}
             elif described[0] == "container":
@@ -285,6 +295,12 @@ class C19(Check):
                     problem = ("unrelated-entity-missing", f"{node.get('cls')} {uid} is missing")
                     break
                 a, b = dict(node), dict(got)
+                if described[0] == "pg" and uid == key_of(described[1].strip("{}")):
+                    # the owner of the touched property group: every OTHER group must be intact
+                    touched = described[2].strip("{}")
+                    others = [k for k in (node.get("pgs") or {}) if k != touched]
+                    a["pgs"] = {k: (node.get("pgs") or {}).get(k) for k in others}
+                    b["pgs"] = {k: (got.get("pgs") or {}).get(k) for k in others}
                 for side in (a, b):
                     if "children" in side:
                         side["children"] = sorted(c for c in side["children"] if c not in dset and (c in intact or c == "ROOT"))
@@ -328,6 +344,8 @@ class C19(Check):
             where = "flat-container"
         elif len(parts) == 3:
             where = parts[1].lower() + "-node"
+        elif "PropertyGroups" in parts:
+            where = "property-group"
         else:
             where = parts[1].lower() + "-children"
         label = name if not name.startswith("{") else "uid-link"
